@@ -75,7 +75,9 @@ var anchors = []int64{
 	utcMidnight(2024, 6, 30),
 }
 
-func r64(rt *rapid.T, lo, hi int64, name string) int64 { return rapid.Int64Range(lo, hi).Draw(rt, name) }
+func r64(rt *rapid.T, lo, hi int64, name string) int64 {
+	return rapid.Int64Range(lo, hi).Draw(rt, name)
+}
 
 // genWin draws a window whose bounds are multiples of gran nanoseconds (the resolution of
 // the API the window is sent through).
@@ -191,7 +193,7 @@ var verFeatures = []string{"v3_1", "v3_2", "tempo_traces_v1", "tempo_traces_v2",
 
 // VerCfg is the generated schema-version configuration of a case.
 type VerCfg struct {
-	Feat  map[string]int `json:"feat,omitempty"` // feature -> class; missing = long ago
+	Feat  map[string]int `json:"feat,omitempty"`   // feature -> class; missing = long ago
 	NoM15 bool           `json:"no_m15,omitempty"` // SHOW TABLES does not list metrics_15s[_dist]
 }
 
@@ -521,10 +523,10 @@ func buildLogStore(streams []Strm, wzone int, keep func(s *Strm, sm Smp) bool) (
 		tp uint8
 	}
 	type magg struct {
-		lastTs               int64
-		last, max, min, sum  float64
-		count                uint64
-		bytes                float64
+		lastTs              int64
+		last, max, min, sum float64
+		count               uint64
+		bytes               float64
 	}
 	aggs := map[mkey]*magg{}
 	var order []mkey
@@ -598,6 +600,9 @@ type limits struct {
 	// index rows: date must be >= IdxLo; and <= IdxHi when CheckIdxHi.
 	IdxLo, IdxHi chsim.Date
 	CheckIdxHi   bool
+	// IndexDateOnly: the timestamp column of tempo_traces_attrs_gin is not judged (the
+	// statement family bounds that index by date alone in this schema-version class).
+	IndexDateOnly bool
 	// Skip: statements (by substring) outside the property (auxiliary estimates).
 	Skip func(sql string) bool
 }
@@ -677,7 +682,7 @@ func checkScans(db *chsim.DB, stmts []stmtRec, lim limits, o *evid.Obs) error {
 			tsCol, tpCol, dtCol := colIdx(t, "timestamp_ns"), colIdx(t, "type"), colIdx(t, "date")
 			for _, ri := range sc.AdmittedRows {
 				row := t.Rows[ri]
-				if tsCol >= 0 && (isData || sc.Table == "tempo_traces_attrs_gin") {
+				if tsCol >= 0 && (isData || (sc.Table == "tempo_traces_attrs_gin" && !lim.IndexDateOnly)) {
 					ts, _ := asInt64(row[tsCol])
 					lo, hi := ts, ts
 					if sc.Table == "metrics_15s" {
